@@ -24,10 +24,12 @@ META = {
         "Reference model: executions = 1 if retry is disabled or the first outcome is not a failure, else min(index of first "
         "non-fail, max(1, max_retries)); same task id, args and user labels (value and type) on every attempt; no result "
         "stored for re-sent attempts when no_result_on_retry, exactly one for the final attempt, none for no-result. "
+        "A second family retries two different messages (own task id, labels, outcome sequence, max_retries) through one "
+        "middleware instance with their attempts interleaved and checks each against the same reference (no cross-talk). "
         "states = distinct (configuration, attempt number, stored results) prefixes reached, transitions = task executions."
     ),
     "assumptions": ["single worker, messages are processed in the order they were kicked"],
-    "required_counters": ["cases", "cases_with_retry", "cases_budget_exhausted"],
+    "required_counters": ["cases", "cases_with_retry", "cases_budget_exhausted", "pair_cases"],
     "bounds": {"quick": {"attempts": 8, "max_retries": "0..6"}, "thorough": {"attempts": 8, "max_retries": "0..6, plus two stacked middlewares and pickle serializer"}},
 }
 
@@ -48,7 +50,10 @@ def cases(tier: str) -> List[Tuple[Any, ...]]:
 
 def shards(tier: str, seed: int) -> List[Any]:
     n = len(cases(tier))
-    return [{"tier": tier, "lo": i, "hi": min(i + 700, n)} for i in range(0, n, 700)]
+    out = [{"tier": tier, "lo": i, "hi": min(i + 700, n)} for i in range(0, n, 700)]
+    m = len(pair_cases())
+    out += [{"tier": tier, "pairs": True, "lo": i, "hi": min(i + 200, m)} for i in range(0, m, 200)]
+    return out
 
 
 def run_case(case: Tuple[Any, ...], acc: Acc, seen: set) -> None:
@@ -186,7 +191,121 @@ def run_case(case: Tuple[Any, ...], acc: Acc, seen: set) -> None:
             acc.violation("final-result-wrong", f"final stored result ({tid}, is_err={res.is_err}, value={res.return_value!r}, error={res.error!r}) does not reflect the final attempt {final} for {desc}", {"case": list(case)})
 
 
+# ---- two different messages retried through ONE middleware instance (state carried between messages)
+PAIR_SEQS = [tuple("S"), tuple("FS"), tuple("FFS"), tuple("FFFF"), tuple("FN")]
+PAIR_MR = [1, 2, 3, None]
+
+
+def pair_cases() -> List[Tuple[Any, ...]]:
+    singles = [(sq, mr) for sq in PAIR_SEQS for mr in PAIR_MR]
+    return [(a, b, nror) for a in singles for b in singles for nror in (True, False)]
+
+
+def run_pair(case: Tuple[Any, ...], acc: Acc) -> None:
+    from taskiq.abc.broker import AsyncBroker
+    from taskiq.abc.result_backend import AsyncResultBackend
+    from taskiq.exceptions import NoResultError
+    from taskiq.middlewares.retry_middleware import SimpleRetryMiddleware
+    from taskiq.receiver import Receiver
+    from mc.vloop import run_sync
+
+    (seq_a, mr_a), (seq_b, mr_b), nror = case
+    cfg = {"A": (seq_a, mr_a), "B": (seq_b, mr_b)}
+    pending: List[bytes] = []
+    execs: Dict[str, List[Dict[str, Any]]] = {"A": [], "B": []}
+    stored: Dict[str, List[Any]] = {"A": [], "B": []}
+
+    class Bk(AsyncBroker):
+        async def kick(self, message: Any) -> None:
+            pending.append(message.message)
+
+        async def listen(self):  # pragma: no cover
+            yield b""
+
+    class RB(AsyncResultBackend):  # type: ignore[type-arg]
+        async def set_result(self, task_id: str, result: Any) -> None:
+            stored.setdefault(task_id, []).append(result)
+
+        async def is_result_ready(self, task_id: str) -> bool:
+            return False
+
+        async def get_result(self, task_id: str, with_logs: bool = False) -> Any:
+            raise KeyError(task_id)
+
+    b = Bk()
+    b.result_backend = RB()
+    b.add_middlewares(SimpleRetryMiddleware(default_retry_count=3, default_retry_label=False, no_result_on_retry=nror))
+
+    async def job(who, ctx: Context = TaskiqDepends()):  # noqa: ANN001
+        tid = ctx.message.task_id
+        n = len(execs.setdefault(tid, []))
+        execs[tid].append({"who": who, "labels": dict(ctx.message.labels)})
+        seq = cfg[tid][0] if tid in cfg else ("S",)
+        o = seq[n] if n < len(seq) else "F"
+        if o == "S":
+            return "done-" + tid
+        if o == "N":
+            raise NoResultError()
+        raise ValueError("attempt failed " + tid)
+
+    job.__module__ = "mc.props.c11"
+    task = b.register_task(job, task_name="c11:pairjob")
+    rec = Receiver(b, run_startup=False, max_async_tasks=1)
+
+    async def drive() -> None:
+        for tid in ("A", "B"):
+            labels: Dict[str, Any] = {"retry_on_error": True, "owner": tid}
+            if cfg[tid][1] is not None:
+                labels["max_retries"] = cfg[tid][1]
+            await task.kicker().with_task_id(tid).with_labels(**labels).kiq(tid)
+        guard = 0
+        while pending and guard < 40:
+            guard += 1
+            await rec.callback(pending.pop(0))
+            acc.transitions += 1
+
+    err = None
+    try:
+        run_sync(drive())
+    except BaseException as exc:
+        err = exc
+    acc.paths += 1
+    acc.states += 1
+    acc.count("pair_cases")
+    desc = {"A": ["".join(seq_a), mr_a], "B": ["".join(seq_b), mr_b], "no_result_on_retry": nror}
+    rp = {"pair": [list(map(list, case[:2])), nror]}
+    if err is not None:
+        acc.violation("pair-loop-crashed", f"{type(err).__name__}: {err} for {desc}", rp)
+        return
+    for tid in ("A", "B"):
+        seq, mr = cfg[tid]
+        m = 3 if mr is None else mr
+        first_nonfail = next((i + 1 for i, o in enumerate(seq) if o != "F"), 10**9)
+        want = 1 if seq[0] != "F" else min(first_nonfail, max(1, m))
+        got = execs.get(tid, [])
+        acc.outcome(("pair", tid, want))
+        if len(got) != want:
+            acc.violation("pair-execution-count", f"message {tid} executed {len(got)} times, reference {want}, when retried next to another message: {desc}", rp)
+            return
+        for k, e in enumerate(got):
+            if e["who"] != tid or e["labels"].get("owner") != tid or (mr is not None and e["labels"].get("max_retries") != mr):
+                acc.violation("pair-crosstalk", f"attempt {k + 1} of message {tid} ran with args/labels of another message: {e} for {desc}", rp)
+                return
+        final = seq[want - 1] if want - 1 < len(seq) else "F"
+        want_stored = (0 if nror else want - 1) + (0 if final == "N" else 1)
+        if len(stored.get(tid, [])) != want_stored:
+            acc.violation("pair-stored-count", f"message {tid}: {len(stored.get(tid, []))} results stored, reference {want_stored} for {desc}", rp)
+            return
+    if set(execs) - {"A", "B"} or set(stored) - {"A", "B"}:
+        acc.violation("pair-foreign-task-id", f"executions/results under unexpected task ids {sorted(set(execs) | set(stored))} for {desc}", rp)
+
+
 def run_shard(shard: Dict[str, Any]) -> Dict[str, Any]:
+    if shard.get("pairs"):
+        acc = Acc()
+        for c in pair_cases()[shard["lo"] : shard["hi"]]:
+            run_pair(c, acc)
+        return acc.as_dict()
     acc = Acc()
     seen: set = set()
     cs = cases(shard["tier"])
@@ -200,7 +319,11 @@ def replay(obj: Dict[str, Any]) -> int:
         return tuple(tup(y) for y in x) if isinstance(x, list) else x
 
     acc = Acc()
-    run_case(tup(obj["case"]), acc, set())
+    if "pair" in obj:
+        a, b = obj["pair"][0]
+        run_pair(((tuple(a[0]), a[1]), (tuple(b[0]), b[1]), obj["pair"][1]), acc)
+    else:
+        run_case(tup(obj["case"]), acc, set())
     for k, v in acc.violations.items():
         print("oracle:", k, "-", v["message"])
     return 1 if acc.violations else 0
